@@ -201,3 +201,134 @@ Definition pool_decide (enc mac cbc : list N) : pool_choice :=
 
 (* hmac_cipher constructor: keys shorter than 16 bytes are refused *)
 Definition hmac_key_ok (k : list N) : bool := negb (Nat.ltb (length k) 16).
+
+(* message_digest::create_by_name: ASCII upper case folded, then one of six names *)
+Definition lower (c : N) : N := if (65 <=? c) && (c <=? 90) then c + 32 else c.
+Definition hash_id (name : list N) : option N :=
+  let n := map lower name in
+  if list_eqb n [109;100;53] then Some 0
+  else if list_eqb n [115;104;97;49] then Some 1
+  else if list_eqb n [115;104;97;50;50;52] then Some 2
+  else if list_eqb n [115;104;97;50;53;54] then Some 3
+  else if list_eqb n [115;104;97;51;56;52] then Some 4
+  else if list_eqb n [115;104;97;53;49;50] then Some 5
+  else None.
+
+(* cbc::create(name): key size in bytes *)
+Definition cbc_key_size (name : list N) : option nat :=
+  if list_eqb name [97;101;115] || list_eqb name [65;69;83]
+     || list_eqb name [97;101;115;49;50;56] || list_eqb name [97;101;115;45;49;50;56]
+     || list_eqb name [65;69;83;49;50;56] || list_eqb name [65;69;83;45;49;50;56] then Some 16%nat
+  else if list_eqb name [97;101;115;49;57;50] || list_eqb name [97;101;115;45;49;57;50]
+     || list_eqb name [65;69;83;49;57;50] || list_eqb name [65;69;83;45;49;57;50] then Some 24%nat
+  else if list_eqb name [97;101;115;50;53;54] || list_eqb name [97;101;115;45;50;53;54]
+     || list_eqb name [65;69;83;50;53;54] || list_eqb name [65;69;83;45;50;53;54] then Some 32%nat
+  else None.
+
+(* crypto::key::set_hex: empty -> empty key; odd length or a non-hex character -> refused *)
+Definition hexv (c : N) : option N :=
+  if (48 <=? c) && (c <=? 57) then Some (c - 48)
+  else if (97 <=? c) && (c <=? 102) then Some (c - 87)
+  else if (65 <=? c) && (c <=? 70) then Some (c - 55)
+  else None.
+Fixpoint all_hex (s : list N) : bool :=
+  match s with [] => true | c :: r => match hexv c with Some _ => all_hex r | None => false end end.
+Fixpoint hex_pairs (s : list N) : list N :=
+  match s with
+  | a :: b :: r =>
+      (match hexv a, hexv b with Some x, Some y => (x * 16 + y) mod 256 | _, _ => 0 end) :: hex_pairs r
+  | _ => []
+  end.
+(* the length test comes first in set_hex, then the character scan *)
+Definition key_of_hex (s : list N) : option (list N) :=
+  if is_nil s then Some []
+  else if negb (Nat.even (length s)) then None
+  else if all_hex s then Some (hex_pairs s) else None.
+
+(* configuration before key preparation, as the factories receive it *)
+Inductive rawcfg :=
+| RHmac (alg_name key : list N)
+| RAes (cbc_name ckey mac_name mkey : list N)
+| RAesK (name key : list N).
+
+(* error codes: 1 no method, 2 encryptor together with hmac/cbc, 3 cbc without hmac, 4 unknown encryptor,
+   5 combined aes key length, 6 cipher or hash not supported by the aes encryptor, 7 malformed hex key,
+   8 hmac key shorter than 16 bytes, 9 cbc key size, 10 unknown hash for the hmac encryptor.
+   at_use = false: raised while the pool / encryptor object is built; true: raised by the first use *)
+Inductive prep :=
+| PrepErr (code : N) (at_use : bool)
+| PrepOk (c : cfg).
+
+Section Prep.
+  Variable hmac : N -> list N -> list N -> list N.
+  Variable dlen : N -> nat.
+
+  Definition prepare (r : rawcfg) : prep :=
+    match r with
+    | RHmac an k =>
+        if negb (hmac_key_ok k) then PrepErr 8 false
+        else match hash_id an with None => PrepErr 10 true | Some a => PrepOk (CHmac a k) end
+    | RAes cn ck mn mk =>
+        match cbc_key_size cn with
+        | None => PrepErr 6 true
+        | Some sz =>
+            if negb (Nat.eqb (length ck) sz) then PrepErr 9 true
+            else match hash_id mn with None => PrepErr 6 true | Some a => PrepOk (CAes ck a mk) end
+        end
+    | RAesK n k =>
+        match cbc_key_size n with
+        | None => PrepErr 6 false
+        | Some sz =>
+            match aes_combined_keys hmac dlen sz k with
+            | None => PrepErr 5 false
+            | Some (ck, mk) => PrepOk (CAes ck 1 mk)
+            end
+        end
+    end.
+
+  (* session_pool::init for session.location = client: option strings and the three hex key strings *)
+  Definition pool_config (enc mac cbc key hkey ckey : list N) : prep + rawcfg :=
+    match pool_decide enc mac cbc with
+    | PErrNoMethod => inl (PrepErr 1 false)
+    | PErrBoth => inl (PrepErr 2 false)
+    | PErrNoMac => inl (PrepErr 3 false)
+    | PEncHmacSha1 =>
+        match key_of_hex key with None => inl (PrepErr 7 false) | Some k => inr (RHmac [115;104;97;49] k) end
+    | PEncHmacNamed =>
+        match key_of_hex key with None => inl (PrepErr 7 false) | Some k => inr (RHmac (skipn 5 enc) k) end
+    | PEncAesCombined =>
+        match key_of_hex key with None => inl (PrepErr 7 false) | Some k => inr (RAesK enc k) end
+    | PErrUnknown =>
+        match key_of_hex key with None => inl (PrepErr 7 false) | Some _ => inl (PrepErr 4 false) end
+    | PMacOnly =>
+        match key_of_hex hkey with None => inl (PrepErr 7 false) | Some k => inr (RHmac mac k) end
+    | PAesSplit =>
+        match key_of_hex hkey with
+        | None => inl (PrepErr 7 false)
+        | Some mk => match key_of_hex ckey with
+                     | None => inl (PrepErr 7 false)
+                     | Some ck => inr (RAes cbc ck mac mk)
+                     end
+        end
+    end.
+End Prep.
+
+(* what load does when the encryptor cannot be used: the checks made before decrypt() still apply *)
+Inductive outcome := Verdict (v : verdict) | Throws.
+Definition load_unusable (cookie : list N) : outcome :=
+  match cookie with
+  | [] => Verdict (Reject false)
+  | c0 :: rest =>
+      if negb (c0 =? 67) then Verdict (Reject true)
+      else match decode_str rest with None => Verdict (Reject true) | Some _ => Throws end
+  end.
+
+(* session_interface::save_data for unexposed entries: 32-bit packed header (key_size:10, exposed:1,
+   data_size:21, little endian bit-field order of the x86-64 ABI), key, value; entries in map order *)
+Definition packed_header (ks : nat) (exposed : bool) (ds : nat) : list N :=
+  le_enc 4 (N.of_nat ks + (if exposed then 1024 else 0) + 2048 * N.of_nat ds).
+Fixpoint session_save_data (kvs : list (list N * list N)) : list N :=
+  match kvs with
+  | [] => []
+  | (k, v) :: r => packed_header (length k) false (length v) ++ k ++ v ++ session_save_data r
+  end.
